@@ -123,6 +123,9 @@ class Peer(Actor):
         self.connect_fn: Optional[Callable[['Peer'], Optional[Stream]]] = None
         self.refused = False
         self.done_time: Optional[float] = None
+        self.tls: Any = None                # sim.tls.TLSLayer once a 'tls_client' / 'tls_server' op ran
+        self._raw_out = bytearray()         # TLS records waiting for room on the stream
+        self.raw_rx_total = 0
         world.actors.append(self)
 
     # -- helpers ----------------------------------------------------------
@@ -172,6 +175,16 @@ class Peer(Actor):
             return True
         if k == 'at':
             return self.w.now >= op[1]
+        if k in ('tls_client', 'tls_server'):
+            return True
+        if k == 'wait_tls':
+            return self.tls is None or self.tls.done or self.tls.error is not None or self.saw_eof or self.saw_reset or self.closed
+        if self.tls is not None and k in ('send', 'close', 'shut_wr') and not (self.closed or st is None):
+            if k == 'send':
+                if not self.tls.done:
+                    return self.tls.error is not None or self.saw_eof or self.saw_reset
+                return len(self._raw_out) < 65536
+            return not self._raw_out or st.wr_shut or (st.peer is not None and st.peer.closed)
         if self.closed or st is None:
             # the connection is gone: remaining ops are skipped one per step
             return True
@@ -197,8 +210,12 @@ class Peer(Actor):
         cuts = op[3] if len(op) > 3 else []
         return self._send_pos in cuts
 
+    def _flush_ready(self) -> bool:
+        st = self.st
+        return bool(self._raw_out) and st is not None and not self.closed and not st.wr_shut and st.room() > 0
+
     def enabled(self) -> bool:
-        return self._read_ready() or self._script_ready()
+        return self._read_ready() or self._flush_ready() or self._script_ready()
 
     def next_deadline(self) -> Optional[float]:
         op = self._op()
@@ -210,6 +227,9 @@ class Peer(Actor):
 
     # -- steps ------------------------------------------------------------------
     def step(self) -> None:
+        if self._flush_ready():
+            self._flush_step()
+            return
         r = self._read_ready()
         s = self._script_ready()
         if r and s:
@@ -222,10 +242,56 @@ class Peer(Actor):
         elif s:
             self._script_step()
 
+    def _flush_step(self) -> None:
+        st = self.st
+        assert st is not None
+        room = st.room()
+        k = min(len(self._raw_out), room)
+        if self.read_mode == 'chunky' and k > 1:
+            k = 1 + self.w.tape.small(k, 'tlsflush')
+        try:
+            n = st.k_send(bytes(self._raw_out[:k]))
+        except OSError as e:
+            self.failed = 'send:%s' % type(e).__name__
+            self._raw_out.clear()
+            self.w.ev(self.name, 'write', type(e).__name__)
+            return
+        del self._raw_out[:n]
+        self.w.ev(self.name, 'write-tls', n)
+
+    def _tls_pump(self) -> None:
+        t = self.tls
+        t.pump()
+        out = t.take_out()
+        if out:
+            self._raw_out += out
+        if t.plain:
+            self.rx += t.plain
+            self.rx_events.append(('data', len(t.plain)))
+            t.plain.clear()
+            self.t_last_rx = self.w.now
+            if self.on_rx is not None:
+                self.on_rx(self)
+
     def _read_step(self) -> None:
         st = self.st
         assert st is not None
         w = self.w
+        if st.rx and self.tls is not None:
+            n = len(st.rx)
+            lim = min(n, self.read_max)
+            k = 1 + w.tape.small(lim, 'readlen') if (self.read_mode == 'chunky' and lim > 1) else lim
+            data = st.k_recv(min(k, lim))
+            self.raw_rx_total += len(data)
+            w.ev(self.name, 'read-tls', len(data))
+            self.tls.feed(data)
+            self._tls_pump()
+            return
+        if self.tls is not None and (st.rst_rcvd or (st.fin_rcvd and not self.saw_eof)):
+            if not getattr(self, '_tls_eof_fed', False):
+                self._tls_eof_fed = True
+                self.tls.feed_eof()
+                self._tls_pump()
         if st.rx:
             n = len(st.rx)
             lim = min(n, self.read_max)
@@ -288,8 +354,43 @@ class Peer(Actor):
         if k == 'at':
             self._advance()
             return
+        if k in ('tls_client', 'tls_server'):
+            from .tls import TLSLayer
+            self.tls = TLSLayer(op[1], k == 'tls_server', op[2] if len(op) > 2 else None)
+            self._tls_pump()
+            w.ev(self.name, k, '')
+            self._advance()
+            return
+        if k == 'wait_tls':
+            self._advance()
+            return
         if self.closed or st is None:
             self._advance()
+            return
+        if k == 'send' and self.tls is not None:
+            if not self.tls.done:
+                self.failed = 'tls:%s' % (self.tls.error or 'eof')
+                self._advance()
+                return
+            data = op[1]
+            mode = op[2] if len(op) > 2 else 'burst'
+            remaining = len(data) - self._send_pos
+            kk = remaining
+            if mode == 'dribble':
+                mx = op[3] if len(op) > 3 else 64
+                kk = min(remaining, 1 + w.tape.small(min(remaining, mx), 'sendlen')) if remaining > 1 else remaining
+            elif mode == 'cuts':
+                nxt = min([c for c in op[3] if c > self._send_pos] + [len(data)])
+                kk = nxt - self._send_pos
+            if kk > 0:
+                self.tls.write(bytes(data[self._send_pos:self._send_pos + kk]))
+                self._raw_out += self.tls.take_out()
+                self.tx += data[self._send_pos:self._send_pos + kk]
+                self._send_pos += kk
+                self.t_last_tx = w.now
+                w.ev(self.name, 'write-plain', kk)
+            if self._send_pos >= len(data):
+                self._advance()
             return
         if k == 'send':
             data = op[1]
